@@ -370,7 +370,10 @@ class Peer:
       'drop_at':  t | None                      the peer closes the connection at time t after `start()`
       'drop_after_reads': n | None              … or as soon as the client has read n lines after `start()`
       'send_error': bool                        sending on a dropped connection raises BrokenPipeError (else: silently lost)
-      'reconnect': 'refuse'                     further connection attempts are refused
+      'reconnect': 'refuse' | 'accept'          further connection attempts are refused (default) / accepted: on a later
+                                                connection the built-in script answers the set-up requests (*IDN?, describe,
+                                                activate) as on the first one, the rules go on applying, nothing else happens
+      'refuse_first': n                         with 'accept': the first n further attempts are refused all the same
     }
     All lines are `str` without the end-of-line.  Every emitted line is logged with `after` = number of lines the client
     had transmitted when the peer emitted it and `re` = index of the transmission that triggered it (None: spontaneous).
@@ -393,6 +396,7 @@ class Peer:
         self.sent = []              # lines transmitted by the client after start(): wire_out
         self.counts = {}
         self.reads = 0
+        self.attempts = 0           # connection attempts after the first connection
 
     def start(self):
         self.t0 = self.s.now
@@ -402,7 +406,10 @@ class Peer:
     def connect(self, uri, *args, **kwds):
         from frappy.errors import CommunicationFailedError
         self.s.yield_(('conn.new',))
-        if self.conns and self.script.get('reconnect', 'refuse') == 'refuse':
+        if self.conns:
+            self.attempts += 1
+        if self.conns and (self.script.get('reconnect', 'refuse') == 'refuse'
+                           or self.attempts <= self.script.get('refuse_first', 0)):
             self.instr.ev('c.new', False)
             raise CommunicationFailedError('can not connect (scripted)')
         c = FakeConn(self)
@@ -424,6 +431,7 @@ class FakeConn:
         self.closed_at = None      # peer side drop (virtual time)
         self.local_shutdown = False
         self.local_closed = False
+        self.index = len(peer.conns)   # 0: the first connection
 
     # --- script side
     def arm(self):
@@ -438,8 +446,8 @@ class FakeConn:
         if self.closed_at is None or t < self.closed_at:
             self.closed_at = t
 
-    def _emit(self, ready_at, line, re):
-        self.inbox.append([ready_at, self.seq, line, len(self.peer.sent), re])
+    def _emit(self, ready_at, line, re, setup=False):
+        self.inbox.append([ready_at, self.seq, line, len(self.peer.sent), re, setup])
         self.seq += 1
         self.inbox.sort(key=lambda x: (x[0], x[1]))
 
@@ -474,15 +482,15 @@ class FakeConn:
             self.instr.ev('c.send.lost', text)
             return
         now = self.s.now
-        if peer.t0 is None:
+        if peer.t0 is None or (self.index > 0 and text in ('*IDN?', 'describe', 'activate')):
             # connection set-up: identification and description are answered by the built-in script
             self.instr.ev('c.send.setup', text)
             if text == '*IDN?':
-                self._emit(now, peer.script.get('ident', Peer.IDENT), None)
+                self._emit(now, peer.script.get('ident', Peer.IDENT), None, True)
             elif text == 'describe':
-                self._emit(now, 'describing . ' + json.dumps(peer.script.get('describe', Peer.DEFAULT_DESCRIPTION)), None)
+                self._emit(now, 'describing . ' + json.dumps(peer.script.get('describe', Peer.DEFAULT_DESCRIPTION)), None, True)
             elif text == 'activate':
-                self._emit(now, 'active', None)
+                self._emit(now, 'active', None, True)
             return
         idx = len(peer.sent)
         peer.sent.append(text)
@@ -521,7 +529,7 @@ class FakeConn:
             if ready:
                 item = ready[0]
                 self.inbox.remove(item)
-                if self.peer.t0 is None:
+                if self.peer.t0 is None or item[5]:
                     self.instr.ev('c.read.setup', item[2][:40])
                 else:
                     self.peer.reads += 1
